@@ -27,6 +27,14 @@ class Check(BaseCheck):
         n_tri, n_tet, size = (30, 8, "small") if self.quick else (600, 150, "large")
         corr_fem.run_stream(drv, stats, self.seed, n_tri, n_tet, size, fails, "fem correspondence (stiffness/mass vs model)",
                             dtypes=("f64", "f64", "f32"))
+        # anisotropic branch of Solver.__init__: model fed with the curvature_tria output the implementation used
+        for k, c in enumerate(corr_fem.aniso_meshes(self.seed, 6 if self.quick else 60)):
+            lump = bool(k % 2)
+            stats.case(core.mesh_key(c["v"], c["t"], lump, "aniso"), cls=["tri-aniso:" + c["name"], "lump:%s" % lump, "aniso:" + ("pair" if isinstance(c["aniso"], tuple) else "scalar")])
+            err = corr_fem.compare_fem_aniso(drv, c["v"], c["t"], lump, c["aniso"], c["smooth"])
+            if err:
+                fails.append(core.Failure("correspondence", "anisotropic Solver vs model", "%s lump=%s: %s" % (c["name"], lump, err),
+                                          dict(corr_fem.case_dict("tri", c["v"], c["t"], lump=lump, name=c["name"]), aniso=c["aniso"], smooth=c["smooth"])))
         return fails
 
     # ---- direct evaluation of the property on the implementation
